@@ -97,6 +97,8 @@ type Raster struct {
 	NDraw   int
 	// OnDraw, when set, is called with the paint of every Draw.
 	OnDraw func(src image.Image)
+	// OnReset, when set, is called with the size of every Reset before it is logged.
+	OnReset func(w, h int)
 	// OnDrawRect, when set, is called with the rectangle and source point of every Draw.
 	OnDrawRect func(r image.Rectangle, sp image.Point)
 	// MaxAbs is the largest coordinate magnitude seen (NaN counts as +Inf).
@@ -148,6 +150,9 @@ func (z *Raster) add(c RCall) {
 }
 
 func (z *Raster) Reset(w, h int) {
+	if z.OnReset != nil {
+		z.OnReset(w, h)
+	}
 	z.add(RCall{K: RReset, A: [6]float32{float32(w), float32(h)}, PenX: z.penX, PenY: z.penY})
 	z.w, z.h = w, h
 	z.penX, z.penY, z.firstX, z.firstY = 0, 0, 0, 0
